@@ -27,8 +27,26 @@ def _mesa():
 _CLASSES = None
 
 
+class _Override:
+    """a per-instance replacement of the method `act` (strategy pattern: `agent.act = something`).  It holds the agent
+    weakly - an instance attribute referring back to its owner strongly would be a reference cycle, and the harness
+    relies on refcounting deaths"""
+
+    __slots__ = ("ref",)
+
+    def __init__(self, agent):
+        self.ref = weakref.ref(agent)
+
+    def __call__(self, arg, tag=None):
+        agent = self.ref()
+        return agent.model.world.callback(agent, arg, tag, via="instance")
+
+
 def classes():
-    """Model subclass + agent hierarchy  T0 <- T1 <- T3,  T2 apart (exact-class grouping must not merge them)"""
+    """Model subclass + agent hierarchy  T0 <- T1 <- T3,  T2 apart (exact-class grouping must not merge them).
+    Properties the correct code must not depend on: agents of class T2 are *falsy* (`__bool__`), those of T3 are empty
+    containers (`__len__` = 0); agents whose x is a multiple of 3 carry a per-instance `act`; `ping` is a staticmethod
+    and `census` a classmethod (activated by name next to `act`)."""
     global _CLASSES
     if _CLASSES is None:
         Model, Agent, AgentSet = _mesa()
@@ -37,25 +55,69 @@ def classes():
             world = None
 
         class T0(Agent):
-            def __init__(self, model, x=0):
+            def __init__(self, model, x=0, y=None):
                 super().__init__(model)
                 self.x = x
+                self.y = y
                 self.aid = model.world.new_aid(self)
+                if isinstance(x, int) and x % 3 == 0:
+                    self.act = _Override(self)
 
-            def act(self, arg):
-                return self.model.world.callback(self, arg)
+            def act(self, arg, tag=None):
+                return self.model.world.callback(self, arg, tag, via="class")
+
+            @staticmethod
+            def ping(world, arg, tag=None):
+                world.named_calls.append(("ping", arg, tag))
+
+            @classmethod
+            def census(cls, world, arg, tag=None):
+                world.named_calls.append(("census", arg, tag, cls))
+                return cls
 
         class T1(T0):
             pass
 
         class T2(T0):
-            pass
+            def __bool__(self):
+                return False
 
         class T3(T1):
-            pass
+            def __len__(self):
+                return 0
 
         _CLASSES = (WModel, [T0, T1, T2, T3], AgentSet)
     return _CLASSES
+
+
+def fmt_val(v):
+    """what an agent's constructor received: an int, or a whole sequence (list / tuple / ndarray)"""
+    if isinstance(v, (int,)) or type(v).__module__ == "numpy" and getattr(v, "ndim", 1) == 0:
+        return str(int(v))
+    return "[" + ".".join(str(int(e)) for e in v) + "]"
+
+
+def fmt_payload(x, y):
+    return fmt_val(x) + ("" if y is None else "/" + fmt_val(y))
+
+
+def parse_arg(tok):
+    """`s:<v>` -> int, `l:<v1,..>` -> list of ints"""
+    kind, _, vals = tok.partition(":")
+    if kind == "s":
+        return int(vals)
+    return [int(v) for v in vals.split(",")] if vals != "-" else []
+
+
+def as_sequence(xs, form):
+    """glue: the same per-agent values as a list, a tuple or a numpy array"""
+    if form % 3 == 0:
+        return list(xs)
+    if form % 3 == 1:
+        return tuple(xs)
+    import numpy as np
+
+    return np.array(xs, dtype=int)
 
 
 def parse_script(rest):
@@ -73,6 +135,7 @@ class WorldImpl:
         self.models, self.wr, self.info = [], [], []
         self.held, self.sets, self.scripts = {}, [], {}
         self.log, self.trace = [], []
+        self.named_calls = []
         self.pending_hold = False
 
     # -- agents ---------------------------------------------------------------------------
@@ -82,11 +145,20 @@ class WorldImpl:
         self.wr.append(weakref.ref(agent, lambda r, aid=aid: tr.append(("dead", aid))))
         m = self.models.index(agent.model)
         ty = self.CLS.index(type(agent))
-        self.info.append((m, ty, agent.unique_id, agent.x))
+        self.info.append((m, ty, agent.unique_id, fmt_payload(agent.x, agent.y)))
         if self.pending_hold:
             self.held[aid] = agent
         tr.append(("create", aid, m, ty, agent.unique_id, self.pending_hold))
         return aid
+
+    def live_classes(self, aids):
+        res = []
+        for a in aids:
+            o = self.deref(a)
+            if o is not None:
+                res.append(type(o))
+            del o
+        return res
 
     def deref(self, aid):
         return self.wr[aid]() if aid < len(self.wr) else None
@@ -117,10 +189,13 @@ class WorldImpl:
         self.held.pop(aid, None)
 
     # -- callbacks ------------------------------------------------------------------------
-    def callback(self, agent, arg):
+    def callback(self, agent, arg, tag=None, via=None):
         aid = agent.aid
         self.log.append((aid, arg))
-        self.trace.append(("invoke", aid, arg))
+        self.trace.append(("invoke", aid, arg, tag))
+        if via == "class" and "act" in agent.__dict__:
+            # the class-level method ran although this agent carries its own `act`: not `agent.act(...)`
+            self.trace.append(("bypassed", aid))
         for act in self.scripts.get(aid, ()):
             k = act[0]
             if k == "rmself":
@@ -220,19 +295,32 @@ class WorldImpl:
             return self.ok("new=" + self.fmt_new(n0))
         if k == "createn":
             m, ty, h, n = map(int, w[1:5])
-            kind, _, vals = w[5].partition(":")
+            args = [parse_arg(t) for t in w[5:]]
+            if len(args) not in (1, 2):
+                return "bad-op"
             n0 = len(self.wr)
-            if kind == "s":
-                self.create(m, ty, h, [int(vals)] * n, scalar=int(vals))
-            else:
-                xs = [int(v) for v in vals.split(",")] if vals != "-" else []
-                assert len(xs) == n
-                self.pending_hold = bool(h)
-                try:  # always the per-agent (sequence) form, also for n == 1; alternate list/tuple
-                    self.CLS[ty].create_agents(self.models[m], n, tuple(xs) if n % 2 else list(xs))
-                finally:
-                    self.pending_hold = False
+            # glue: sequences travel as list / tuple / ndarray, the arguments positionally or by keyword
+            form = n + len(w[5])
+            vals = [a if isinstance(a, int) else as_sequence(a, form + i) for i, a in enumerate(args)]
+            self.pending_hold = bool(h)
+            try:
+                cls, model = self.CLS[ty], self.models[m]
+                if len(vals) == 1:
+                    cls.create_agents(model, n, vals[0]) if form % 2 else cls.create_agents(model, n, x=vals[0])
+                elif form % 2:
+                    cls.create_agents(model, n, vals[0], vals[1])
+                else:
+                    cls.create_agents(model, n, vals[0], y=vals[1])
+            finally:
+                self.pending_hold = False
             return self.ok("new=" + self.fmt_new(n0))
+        if k == "setagents":
+            model = self.models[int(w[1])]
+            try:
+                model.agents = []
+            except AttributeError:
+                return "err Attr"
+            return self.ok("assigned")
         if k == "remove":
             self.remove(int(w[1]))
             return self.ok()
@@ -287,17 +375,41 @@ class WorldImpl:
         arg, how = int(w[-2]), w[-1]
         before = self.ids(s)
         rem = list(self.models[m].random.remaining())
-        self.trace.append(("call", k, w[1], before, rem, arg, key, [self.info[a][1:3] for a in before]))
-        method = "act" if how == "str" else (lambda a, x: a.model.world.callback(a, x))
+        # glue ("arguments are passed through unchanged"): the argument travels positionally or by keyword, alone or
+        # with a second keyword argument `tag` = arg + 7 that the callback reports back
+        form = (arg + len(before)) % 3
+        pa, kw = ((arg,), {}) if form == 0 else ((), {"arg": arg, "tag": arg + 7}) if form == 1 else ((arg,), {"tag": arg + 7})
+        self.trace.append(("call", k, w[1], before, rem, arg, key, [self.info[a][1:3] for a in before], kw.get("tag")))
+        method = "act" if how == "str" else (lambda a, arg, tag=None: a.model.world.callback(a, arg, tag))
         res = ""
+        if how == "str" and k in ("do", "map") and (arg + len(before)) % 2:
+            # the same activation with a staticmethod / classmethod name first: `agent.ping(...)` / `agent.census(...)`
+            # once per member, arguments unchanged; they do nothing, so the real activation below starts from the same state
+            self.named_calls = []
+            classes_ = self.live_classes(before)  # (no walrus here: it would leave the last agent referenced by this frame)
+            try:
+                if k == "do":
+                    s.do("ping", self, *pa, **kw)
+                    got = None
+                else:
+                    got = s.map("census", self, *pa, **kw)
+                err = None
+            except Exception as e:  # noqa: BLE001
+                got, err = None, type(e).__name__
+            ix = self.CLS.index  # (class objects do not travel between the worker processes: indices)
+            self.trace.append(("named", "ping" if k == "do" else "census",
+                               [c[:3] + ((ix(c[3]),) if len(c) > 3 else ()) for c in self.named_calls],
+                               [ix(c) for c in classes_], None if got is None else [ix(c) for c in got], err, arg, kw.get("tag")))
+            self.named_calls = []
+            del classes_, got
         if k == "do":
-            r = s.do(method, arg)
+            r = s.do(method, *pa, **kw)
             assert r is s
         elif k == "shuffledo":
-            r = s.shuffle_do(method, arg)
+            r = s.shuffle_do(method, *pa, **kw)
             assert r is s
         elif k == "map":
-            r = s.map(method, arg)
+            r = s.map(method, *pa, **kw)
             res = " res=" + ",".join(map(str, r))
             self.trace.append(("result", list(r)))
         else:
@@ -306,10 +418,10 @@ class WorldImpl:
                   "mod3": (lambda a: a.unique_id % 3)}[key]
             gb = s.groupby(by)
             if k == "gdo":
-                r = gb.do("do", method, arg) if how == "str" else gb.do(lambda g, x: g.do(method, x), arg)
+                r = gb.do("do", method, *pa, **kw) if how == "str" else gb.do(lambda g, *a, **k2: g.do(method, *a, **k2), *pa, **kw)
                 assert r is gb
             else:
-                r = gb.map("map", method, arg) if how == "str" else gb.map(lambda g, x: g.map(method, x), arg)
+                r = gb.map("map", method, *pa, **kw) if how == "str" else gb.map(lambda g, *a, **k2: g.map(method, *a, **k2), *pa, **kw)
                 res = " res=" + ";".join(f"{kk}:{'.'.join(map(str, v))}" for kk, v in r.items())
                 self.trace.append(("result", [(kk, list(v)) for kk, v in r.items()]))
             del gb, r
@@ -407,10 +519,16 @@ def gen_world(R, flavor="c04", size=None):
             if R.random() < 0.6:
                 return f"create {m} {R.randrange(NTYPES)} {hold()} {R.randrange(-3, 9)}"
             n = R.choice([0, 1, 2, 3, 4])
-            if R.random() < 0.5:
-                return f"createn {m} {R.randrange(NTYPES)} {hold()} {n} s:{R.randrange(-3, 9)}"
-            xs = ",".join(str(R.randrange(-3, 9)) for _ in range(n)) or "-"
-            return f"createn {m} {R.randrange(NTYPES)} {hold()} {n} l:{xs}"
+
+            def an_arg():
+                if R.random() < 0.4:
+                    return f"s:{R.randrange(-3, 9)}"
+                # a per-agent sequence (length n) or a sequence of another length, which every agent receives whole
+                k = n if R.random() < 0.6 else R.choice([0, 1, 2, 3, 5])
+                return "l:" + (",".join(str(R.randrange(-3, 9)) for _ in range(k)) or "-")
+
+            args = an_arg() + (" " + an_arg() if R.random() < 0.35 else "")
+            return f"createn {m} {R.randrange(NTYPES)} {hold()} {n} {args}"
 
         for _ in range(R.randrange(1, 7) if flavor == "c04" else R.randrange(0, 5)):
             emit(create_line())
@@ -438,7 +556,7 @@ def gen_world(R, flavor="c04", size=None):
                 if R.random() < 0.25:
                     emit(f"remove {a}")  # idempotence
             elif op == "removeall":
-                emit(f"removeall {R.randrange(nm)}")
+                emit(f"removeall {R.randrange(nm)}" if R.random() < 0.7 else f"setagents {R.randrange(nm)}")
             elif op == "unhold":
                 emit(f"unhold {an_agent()}")
             elif op == "reorder":
@@ -472,7 +590,7 @@ def exhaustive_activation(max_n, kinds, all_held_patterns, n4=False):
 
     def scen(n, combo, held, kind):
         lines = ["scenario world", "model 3,1,4,1,5,9,2,6"]
-        lines += [f"create 0 {i % 2} {h} 0" for i, h in enumerate(held)]
+        lines += [f"create 0 {[0, 2, 1, 3][i % 4]} {h} {i}" for i, h in enumerate(held)]  # T2, T3: falsy agents; x = 0, 3: own `act`
         lines += [f"script {i} {a}" for i, a in enumerate(combo) if a]
         lines.append(f"{kind} all:0 1 str" if not kind.startswith("g") else f"{kind} all:0 ty 1 str")
         return core.Scenario(lines, {"exhaustive": True})
@@ -527,10 +645,24 @@ def oracle_c02(sc, obs):
     seen_ty = []  # per model: classes that ever had an agent (agent_types may keep emptied ones)
     uids = []     # per model: uids handed out, in creation order
     prev = None
-    for line, events, st in split_ops(tr):
+    for (line, events, st), o in zip(split_ops(tr), list(obs[1:]) + [""] * len(tr)):
         w = line.split()
         touched = set()
         removed_again = False
+        if w[0] == "createn" and o.startswith("ok"):
+            # create_agents(model, n, *args): n agents; the i-th receives arg[i] of a sequence of length n, and any
+            # other argument (a single object, a sequence of another length) as it is
+            n = int(w[4])
+            args = [parse_arg(t) for t in w[5:]]
+            want = ["/".join(str(a) if isinstance(a, int) else str(a[i]) if len(a) == n else "[" + ".".join(map(str, a)) + "]"
+                             for a in args) for i in range(n)]
+            got = [e.split(":")[2] for e in o.split(" || ")[0][len("ok new="):].split(",") if e]
+            if got != want:
+                bad.append(f"createn: `{line}` handed the constructors {got}, expected {want}")
+            if len([e for e in events if e[0] == "create"]) != n:
+                bad.append(f"createn: `{line}` created {len([e for e in events if e[0] == 'create'])} agents")
+        if w[0] == "setagents" and not o.startswith("err Attr"):
+            bad.append(f"setagents: assigning model.agents was not rejected (`{o.split(' || ')[0]}`)")
         for ev in events:
             if ev[0] == "create":
                 _, aid, m, ty, uid, _h = ev
@@ -661,7 +793,7 @@ def oracle_c04(sc, obs):
             elif k == "unhold":
                 held.discard(ev[1])
             elif k == "call":
-                _, kind, tok, before, rem, arg, key, tyuid = ev
+                _, kind, tok, before, rem, arg, key, tyuid, tag = ev
                 if kind == "shuffledo":
                     visit = _shuffle_reference(before, rem)
                 elif kind in ("gdo", "gmap"):
@@ -673,7 +805,7 @@ def oracle_c04(sc, obs):
                     call_groups = groups
                 else:
                     visit = list(before)
-                call = {"kind": kind, "before": before, "visit": visit, "arg": arg, "created": set(),
+                call = {"kind": kind, "before": before, "visit": visit, "arg": arg, "tag": tag, "created": set(),
                         "groups": call_groups if kind in ("gdo", "gmap") else None}
                 if len(set(before)) != len(before):
                     bad.append(f"set: duplicate member in {tok}: {before}")
@@ -681,7 +813,9 @@ def oracle_c04(sc, obs):
                 snap = (set(registered), set(held))
                 pending = list(visit)
             elif k == "invoke" and call is not None:
-                _, aid, arg = ev
+                _, aid, arg, tag = ev
+                if tag != call["tag"]:
+                    bad.append(f"args: agent {aid} received the keyword argument tag={tag}, the call passed tag={call['tag']}")
                 if aid in invoked:
                     bad.append(f"twice: agent {aid} invoked twice by `{line}`")
                 if aid not in call["before"]:
@@ -702,6 +836,20 @@ def oracle_c04(sc, obs):
                     if aid in call["before"] and aid not in invoked:
                         bad.append(f"order: agent {aid} invoked out of the visiting order {call['visit']} by `{line}`")
                 invoked.append(aid)
+            elif k == "bypassed":
+                bad.append(f"callable: `{line}` ran the class-level method on agent {ev[1]}, which carries its own `act`: "
+                           f"the named method of each *agent* must be invoked")
+            elif k == "named" and call is not None:
+                _, name, calls, classes_, got, err, arg, tag = ev
+                want_n = len(classes_)
+                if err:
+                    bad.append(f"args: `{line}` by the {'staticmethod' if name == 'ping' else 'classmethod'} name `{name}` raised {err}: "
+                               f"agent.{name}(*args) was not called with the arguments passed through unchanged")
+                elif len(calls) != want_n or any(c[1] != arg or c[2] != tag for c in calls):
+                    bad.append(f"args: `{line}` by the name `{name}` made {len(calls)} calls {[(c[1], c[2]) for c in calls][:3]} "
+                               f"for {want_n} members (argument {arg}, tag {tag})")
+                elif name == "census" and (got != classes_ or [c[3] for c in calls] != classes_):
+                    bad.append(f"map: `{line}` by the classmethod name `census` did not return one result per member, in order")
             elif k == "return" and call is not None:
                 snap = (set(registered), set(held))
             elif k == "result":
@@ -753,6 +901,12 @@ def world_tags(sc, obs):
                 if len(inv) < len(call[3]):
                     yield "branch:member-skipped"
                 yield "target:" + call[2].split(":")[0]
+        if w[0] == "createn":
+            n = int(w[4])
+            for t in w[5:]:
+                yield "createn:" + ("single-object" if t[0] == "s" else "split" if len(parse_arg(t)) == n else "whole-sequence")
+            if len(w) > 6:
+                yield "createn:two-arguments"
         if w[0] == "remove" and "remove" in kinds and "dead" not in kinds:
             yield "branch:removed-but-held-or-already-removed"
         if w[0] == "remove" and "remove" not in kinds:
